@@ -1,8 +1,11 @@
 ------------------------------ MODULE HtmlTrace ------------------------------
 (* C04, HTML screenshot back-end: the fragment, parsed back with an HTML parser (which     *)
 (* undoes the escaping), must give exactly the canvas text row by row, and at most one     *)
-(* cell may be drawn as the cursor.                                                        *)
-EXTENDS Integers, Sequences, TLC, Json, IOUtils
+(* cell may be drawn as the cursor: the cell of the canvas cursor.  The driver records,    *)
+(* per row and per character of the fragment, the character's width in screen columns      *)
+(* (widths) and whether it is drawn differently from the same canvas without a cursor      *)
+(* (marks); the screen column of a character is counted here.                              *)
+EXTENDS Integers, Sequences, FiniteSets, TLC, Json, IOUtils
 
 Traces == JsonDeserialize(IOEnv.TRACE_FILE)
 VARIABLES tid, l, ok, why
@@ -10,12 +13,24 @@ vars == <<tid, l, ok, why>>
 
 Init == tid \in 1..Len(Traces) /\ l = 0 /\ ok = TRUE /\ why = "-"
 
+RECURSIVE SumTo(_, _)
+SumTo(ws, n) == IF n = 0 THEN 0 ELSE ws[n] + SumTo(ws, n - 1)
+\* the characters drawn as the cursor: <<row, first screen column, columns>>, rows and columns 0-based as canvas cursors are
+Marked(e) == UNION {{<<y - 1, SumTo(e.widths[y], i - 1), e.widths[y][i]>> : i \in {j \in 1..Len(e.marks[y]) : e.marks[y][j] = 1}} :
+                    y \in 1..Len(e.marks)}
+\* the one highlighted character is the glyph that covers the canvas cursor column (a wide glyph covers two)
+CursorCellOk(e) ==
+  LET m == Marked(e) IN
+  /\ Cardinality(m) = 1
+  /\ \E c \in m : c[1] = e.cur[2] /\ c[2] <= e.cur[1] /\ e.cur[1] < c[2] + c[3]
+
 Verdict(e) ==
   IF e.exc # "" THEN "html_raised"
   ELSE IF Len(e.got) # Len(e.want) THEN "html_row_count"
   ELSE IF \E y \in 1..Len(e.want) : e.got[y] # e.want[y] THEN "html_text_row_by_row"
   ELSE IF e.cursor_cells > 1 \/ e.cursor_cells < 0 THEN "at_most_one_cursor_cell"
   ELSE IF e.wantcur = 0 /\ e.cursor_cells # 0 THEN "no_cursor_cell_without_cursor"
+  ELSE IF e.cur # <<>> /\ ~CursorCellOk(e) THEN "cursor_cell_is_the_canvas_cursor_cell"
   ELSE "-"
 
 Step == /\ ok /\ l < Len(Traces[tid].ev) /\ l' = l + 1 /\ tid' = tid
